@@ -180,7 +180,20 @@ def mat_binop(it, op, a, b, frame, node):
 
 
 def mat_getitem(it, m, idx):
-    """column extraction M[:, i]"""
+    """column extraction M[:, i]; row gather M[idx, :]; column gather M[:, idx]"""
+    full = slice(None, None, None)
+    if isinstance(idx, tuple) and len(idx) == 2 and isinstance(idx[0], Arr) and isinstance(idx[1], slice) and idx[1] == full:
+        e = entry_fn(it, m)
+        iv = idx[0].vec()
+        g = Mat(iv.n, m.cols, lambda i, j: e(iv.f(i), j), name=it.path.fresh_name("rows"))
+        g.gather = ("rows", m, iv)
+        return g
+    if isinstance(idx, tuple) and len(idx) == 2 and isinstance(idx[1], Arr) and isinstance(idx[0], slice) and idx[0] == full:
+        e = entry_fn(it, m)
+        iv = idx[1].vec()
+        g = Mat(m.rows, iv.n, lambda i, j: e(i, iv.f(j)), name=it.path.fresh_name("cols"))
+        g.gather = ("cols", m, iv)
+        return g
     if isinstance(idx, tuple) and len(idx) == 2 and isinstance(idx[0], slice) and idx[0] == slice(None, None, None) and not isinstance(idx[1], slice):
         e = entry_fn(it, m)
         i = idx[1]
@@ -327,6 +340,10 @@ def coo_from_triplets(it, data, row, col, shape, name=None, region="FRESH", fmt=
     nnz = data.n
     m = Mat(shape[0], shape[1], None, name=name or it.path.fresh_name("C"), region=region, fmt=fmt)
     m.coo = (nnz, row, col, data)
+    if not isinstance(nnz, int) and getattr(row.vec(), "is_arange", False):
+        # rows are 0..nnz-1 (np.arange): exactly one stored entry per row
+        cv0, dv0 = col.vec(), data.vec()
+        m.entry = lambda i, j: z3.If(ops.to_term(cv0.f(i)) == _iv(j), ops._real(dv0.f(i)), z3.RealVal(0))
     if isinstance(nnz, int):
         rv, cv, dv = row.vec(), col.vec(), data.vec()
 
@@ -345,6 +362,21 @@ def sp_coo_matrix(it, arg, shape=None, dtype=None):
 
     if isinstance(arg, tuple) and len(arg) == 2 and isinstance(arg[1], tuple):
         data, (row, col) = arg
+        from .values import Masked
+
+        if isinstance(data, Masked) and isinstance(row, Masked) and isinstance(col, Masked):
+            # boolean-mask selections of the same mask: the triplets are compressed through the increasing
+            # enumeration of the True positions (np.where model)
+            if not (data.mask is row.mask and row.mask is col.mask):
+                raise Unsupported("coo_matrix from selections with different masks")
+            from .npmodel import np_where
+
+            (idx,) = np_where(it, Arr.new(data.mask))
+            iv = idx.vec()
+            g = lambda v, kind: Arr.new(Vec(iv.n, lambda k: v.f(iv.f(k)), kind))
+            m = coo_from_triplets(it, g(data.vec, "real"), g(row.vec, "int"), g(col.vec, "int"), shape)
+            m.selection = (iv, data.mask)
+            return m
         conv = lambda v, kind: v if isinstance(v, Arr) else _empty(kind)  # python [] -> empty array
         return coo_from_triplets(it, conv(data, "real"), conv(row, "int"), conv(col, "int"), shape)
     if isinstance(arg, Mat):
